@@ -1,6 +1,8 @@
 #!/bin/sh
 # usage: specs/apalache/run_generic.sh <Module.tla> <Invariant that must hold> <negative control that must be refuted>
 cd "$(dirname "$0")" || exit 2
+# supplementary step: if the tool is not installed, say so and do not fail the (TLC-decided) check
+command -v apalache-mc >/dev/null 2>&1 || { echo "APALACHE-SKIP apalache-mc not on PATH"; exit 0; }
 OUT=/var/tmp/verif-apalache-g-$$
 ok=0
 mkdir -p $OUT; export TMPDIR=$OUT
